@@ -21,6 +21,9 @@ import traceback
 from collections import Counter
 
 ROOT = os.path.dirname(os.path.dirname(os.path.abspath(__file__)))
+# evidence/ and replay/ are written under VERIF_OUT (default: the checkout itself); the
+# self-test points it at a scratch directory so that it never clobbers real evidence
+OUT = os.path.abspath(os.environ.get("VERIF_OUT", ROOT))
 
 
 def _mod(prop):
@@ -262,8 +265,8 @@ def run(prop, tier, seed, nworkers=None, keep=False):
     if judged < 2:
         reasons.append("judged<2")
     # ---- replay files
-    os.makedirs(os.path.join(ROOT, "replay"), exist_ok=True)
-    os.makedirs(os.path.join(ROOT, "evidence"), exist_ok=True)
+    os.makedirs(os.path.join(OUT, "replay"), exist_ok=True)
+    os.makedirs(os.path.join(OUT, "evidence"), exist_ok=True)
     rs = repo_state()
     lines = []
     seen_keys = set()
@@ -274,10 +277,10 @@ def run(prop, tier, seed, nworkers=None, keep=False):
         seen_keys.add(v["key"])
         nrep += 1
         path = os.path.join("replay", "%s-%d.json" % (prop, nrep))
-        with open(os.path.join(ROOT, path), "w") as f:
+        with open(os.path.join(OUT, path), "w") as f:
             json.dump({"property": prop, "key": v["key"], "what": v["what"], "detail": v.get("detail"), "case": v["case"],
                        "hashseed": v["hashseed"], "tier": tier, "seed": seed, "repo": rs}, f, indent=1)
-        lines.append("VIOLATION property=%s replay=%s key=%s count=%d :: %s" % (prop, os.path.join(ROOT, path), v["key"], viol_keys[v["key"]], v["what"]))
+        lines.append("VIOLATION property=%s replay=%s key=%s count=%d :: %s" % (prop, os.path.join(OUT, path), v["key"], viol_keys[v["key"]], v["what"]))
     for k in unknown_keys:
         if k not in seen_keys:   # witness list was capped; still must be reported
             lines.append("VIOLATION property=%s replay=none key=%s count=%d" % (prop, k, viol_keys[k]))
@@ -320,7 +323,7 @@ def run(prop, tier, seed, nworkers=None, keep=False):
         "wall_s": round(wall, 2),
         "violations": sum(viol_keys[k] for k in unknown_keys),
     }
-    with open(os.path.join(ROOT, "evidence", prop + ".json"), "w") as f:
+    with open(os.path.join(OUT, "evidence", prop + ".json"), "w") as f:
         json.dump(ev, f, indent=1, default=str)
     for ln in lines:
         print(ln)
